@@ -603,4 +603,12 @@ def R9_ksp_endpoints(ctx):
     R4_criteria(ctx)
 
 
-RULES = [R1_tree_update, R2_direction, R3_backtrack, R4_edge_oriented, R5_reorient, R6_loop_test, R7_single_via_acceptance, R8_yens_candidate, R9_ksp_endpoints]
+def R10_origin_label(ctx):
+    """"following parents reaches the search origin": the origin never gets a branch of its own because its label is 0 from the start
+    and a label is replaced only by a strictly smaller one (shared with C02.R1; round 7: the initial g-score insert removed and the
+    origin special-cased at the read — an edge back into the origin was then relaxed against INFINITY and recorded as the origin's parent)"""
+    from props.C02 import R1_relaxation
+    R1_relaxation(ctx)
+
+
+RULES = [R1_tree_update, R2_direction, R3_backtrack, R4_edge_oriented, R5_reorient, R6_loop_test, R7_single_via_acceptance, R8_yens_candidate, R9_ksp_endpoints, R10_origin_label]
